@@ -105,6 +105,8 @@ def kind_of(port, chan, data):
     """'log' / 'param' for packets of the table download (TOC channel, extended-type query)"""
     if port == sv.PORT_LOG and chan == 0:
         return 'log'
+    if port == sv.PORT_LOG and chan == 1 and len(data) >= 1 and data[0] == 5:
+        return 'log'            # RESET command / reply: the front end of the log download
     if port == sv.PORT_PARAM and chan == 0:
         return 'param'
     if port == sv.PORT_PARAM and chan == 3 and len(data) >= 1 and data[0] == 2:
@@ -113,20 +115,29 @@ def kind_of(port, chan, data):
 
 
 class ScriptFaults(sd.Faults):
-    """downlink faults addressed by (kind, k) = k-th download reply of that table (1-based):
-    script[kind][str(k)] = list of actions ('deliver' | 'dup' | ['hold', j])."""
+    """downlink faults addressed by (kind, k) = k-th download reply of that table (1-based; for
+    the log table the RESET reply is the first): script[kind][str(k)] = list of actions
+    ('deliver' | 'dup' | ['hold', j]); ['deliver', ['hold', j]] = a duplicate that arrives j
+    downlink packets later.  kind 'setup' = the other replies of the connection set-up in order
+    of appearance (link-service source, protocol version, memory count), until connected."""
 
     def __init__(self, script=None):
         self.script = script or {}
-        self.count = {'log': 0, 'param': 0}
+        self.count = {'log': 0, 'param': 0, 'setup': 0}
+        self.setup_on = True
+        self.setup_seen = []
 
     def new_session(self):
-        self.count = {'log': 0, 'param': 0}
+        self.count = {'log': 0, 'param': 0, 'setup': 0}
+        self.setup_on = True
 
     def downlink(self, dev, n, pk):
         k = kind_of(pk.port, pk.channel, bytes(pk.data))
         if k is None:
-            return ['deliver']
+            if not self.setup_on or pk.port not in (sv.PORT_LINK, sv.PORT_PLATFORM, sv.PORT_MEM):
+                return ['deliver']
+            k = 'setup'
+            self.setup_seen.append((pk.port, pk.channel))
         self.count[k] += 1
         acts = self.script.get(k, {}).get(str(self.count[k]))
         if not acts:
@@ -186,6 +197,11 @@ class TocDevice(sd.Device):
             return
         self.down_n += 1
         acts = self.faults.downlink(self, self.down_n, pk)
+        k = kind_of(pk.port, pk.channel, bytes(pk.data))
+        copies = sum(1 for a in acts if a in ('deliver', 'dup') or (isinstance(a, tuple) and a[0] == 'hold'))
+        if k is not None:
+            for _ in range(max(0, copies - 1)):      # every copy beyond the first is a duplicate on the link
+                self.rec({'e': 'dup', 'kind': k, 'ch': pk.channel, 'd': list(pk.data)})
         due = []
         for h in list(self.held):
             h[0] -= 1
@@ -203,13 +219,6 @@ class TocDevice(sd.Device):
                 self._deliver(link, pk, 'dup')
         for h in due:
             self._deliver(link, h[1], 'late')
-
-    def _deliver(self, link, pk, how):
-        if how == 'dup':
-            k = kind_of(pk.port, pk.channel, bytes(pk.data))
-            if k is not None and not link.closed:
-                self.rec({'e': 'dup', 'kind': k, 'ch': pk.channel, 'd': list(pk.data)})
-        super()._deliver(link, pk, how)
 
     # ---- manual mode (called by the harness between scheduler runs)
     def dev_reply(self):
